@@ -309,7 +309,17 @@ def suggest_match_expr(pattern):
     words = [re.sub(r'\\(.)', r'\1', w) for w in pattern.split(r'\s*') if w]
 
     def literal(text):
-        return '"' + text.replace('\\', '\\\\').replace('"', '\\"') + '"'
+        # A control character (a NUL byte in an export, say) cannot stand in a rules file as
+        # it is: it is written as an escape, which the expression parser reads back
+        out = []
+        for ch in text:
+            if ch in '\\"':
+                out.append('\\' + ch)
+            elif ch.isprintable():
+                out.append(ch)
+            else:
+                out.append(ch.encode('unicode_escape').decode('ascii'))
+        return '"' + ''.join(out) + '"'
 
     if not words:
         return 'contains("")'
